@@ -8,8 +8,18 @@ use iceoryx2::port::subscriber::Subscriber;
 use iceoryx2::prelude::*;
 use iceoryx2::sample::Sample;
 use iceoryx2::sample_mut_uninit::SampleMutUninit;
+use iceoryx2::service::marker::Flatbuffer;
 use std::collections::HashMap;
 use std::mem::MaybeUninit;
+
+// generated flatbuffer code of the example (follows /repo)
+#[path = "/repo/examples/rust/flatbuffer_publish_subscribe/unbounded_data_generated.rs"]
+#[allow(clippy::all, unused_imports, dead_code, mismatched_lifetime_syntaxes)]
+#[rustfmt::skip]
+mod unbounded_data_generated;
+use unbounded_data_generated::example::{Entry, EntryArgs, UnboundedData, UnboundedDataArgs};
+const FB_SCHEMA: &str = "/repo/examples/rust/flatbuffer_publish_subscribe/unbounded_data.fbs";
+type Fb = Flatbuffer<UnboundedData<'static>>;
 
 static SERVICE_COUNTER: std::sync::atomic::AtomicUsize = std::sync::atomic::AtomicUsize::new(0);
 
@@ -45,8 +55,59 @@ struct SliceWorld<S: Service> {
     sub_labels: std::collections::HashSet<usize>,
 }
 
+/// a flatbuffer loan: the title string is written at `loanf`, the entries (which carry the tag) at `send`;
+/// the builder may grow (and relocate the loaned chunk) in both phases
+struct FbLoan<S: Service> {
+    s: SampleMutUninit<S, Fb, ()>,
+    title: flatbuffers::WIPOffset<&'static str>,
+    k: usize,
+}
+
+/// what is remembered of a received flatbuffer sample: header values and all payload bytes
+struct FbSnap {
+    tag: u64,
+    payload_offset: u64,
+    number_of_elements: u64,
+    bytes: Vec<u8>,
+}
+
+#[derive(Default)]
+struct FbStat {
+    // [no growth, growth inside the chunk, relocated into another chunk]
+    loanf: [usize; 3],
+    send: [usize; 3],
+    max_capacity: usize,
+}
+
+struct FbWorld<S: Service> {
+    node: Option<Node<S>>,
+    service: Option<iceoryx2::service::port_factory::publish_subscribe::PortFactory<S, Fb, ()>>,
+    prefix: String,
+    node_dir: String,
+    pubs: HashMap<usize, Publisher<S, Fb, ()>>,
+    subs: HashMap<usize, Subscriber<S, Fb, ()>>,
+    loans: HashMap<(usize, usize), FbLoan<S>>,
+    samples: HashMap<usize, Vec<(Sample<S, Fb, ()>, FbSnap)>>,
+    pub_ids: HashMap<u128, usize>,
+    max_borrow: usize,
+    pub_labels: std::collections::HashSet<usize>,
+    sub_labels: std::collections::HashSet<usize>,
+    stat: FbStat,
+}
+
+impl<S: Service> Drop for FbWorld<S> {
+    fn drop(&mut self) {
+        if std::env::var("VERIF_FBSTAT").is_ok() {
+            let (a, b) = (&self.stat.loanf, &self.stat.send);
+            eprintln!("# fbstat loanf none={} inplace={} reloc={} send none={} inplace={} reloc={} maxcap={}", a[0], a[1], a[2], b[0], b[1], b[2], self.stat.max_capacity);
+        }
+    }
+}
+
 pub enum AnyWorld {
     None,
+    LocalFb(Box<FbWorld<local::Service>>),
+    IpcFb(Box<FbWorld<ipc::Service>>),
     LocalSlice(Box<SliceWorld<local::Service>>),
     IpcSlice(Box<SliceWorld<ipc::Service>>),
     Local(Box<World<local::Service>>),
@@ -110,6 +171,69 @@ fn mk_slice<S: Service>(t: &[&str]) -> Result<SliceWorld<S>, String> {
         .map_err(|e| format!("err:service:{e:?}"))?;
     let node_dir = format!("{}", node.id().value());
     Ok(SliceWorld { node: Some(node), service: Some(service), prefix, node_dir, pubs: HashMap::new(), subs: HashMap::new(), loans: HashMap::new(), samples: HashMap::new(), pub_ids: HashMap::new(), max_borrow: n(t[6]).max(1), pub_labels: Default::default(), sub_labels: Default::default() })
+}
+
+fn mk_fb<S: Service>(t: &[&str]) -> Result<FbWorld<S>, String> {
+    let k = SERVICE_COUNTER.fetch_add(1, std::sync::atomic::Ordering::Relaxed);
+    let mut config = iceoryx2::config::Config::global_config().clone();
+    config.defaults.publish_subscribe.subscriber_expired_connection_buffer = n(t[8]);
+    // own domain: nothing is shared with other iceoryx2 users of this machine (test suites, other checks)
+    let prefix = format!("vf{}c{}_", std::process::id(), k);
+    config.global.prefix = iceoryx2_bb_system_types::file_name::FileName::new(prefix.as_bytes()).unwrap();
+    let node = NodeBuilder::new().config(&config).create::<S>().map_err(|e| format!("err:node:{e:?}"))?;
+    let name = ServiceName::new(&format!("verif/pubsub/{}/{k}", std::process::id())).unwrap();
+    let schema: iceoryx2_bb_system_types::file_path::FilePath = FB_SCHEMA.try_into().unwrap();
+    let service = node
+        .service_builder(&name)
+        .publish_subscribe::<Fb>()
+        .flatbuffer_schema_path(&schema)
+        .max_publishers(n(t[2]))
+        .max_subscribers(n(t[3]))
+        .subscriber_max_buffer_size(n(t[4]))
+        .history_size(n(t[5]))
+        .subscriber_max_borrowed_samples(n(t[6]))
+        .enable_safe_overflow(n(t[7]) == 1)
+        .create()
+        .map_err(|e| format!("err:service:{e:?}"))?;
+    let node_dir = format!("{}", node.id().value());
+    Ok(FbWorld { node: Some(node), service: Some(service), prefix, node_dir, pubs: HashMap::new(), subs: HashMap::new(), loans: HashMap::new(), samples: HashMap::new(), pub_ids: HashMap::new(), max_borrow: n(t[6]).max(1), pub_labels: Default::default(), sub_labels: Default::default(), stat: Default::default() })
+}
+
+/// start address and capacity of the memory the flatbuffer builder of a loan currently writes to
+fn fb_place<S: Service>(s: &mut SampleMutUninit<S, Fb, ()>) -> (usize, usize) {
+    let (buf, _) = s.flatbuffer_builder().mut_finished_buffer();
+    (buf.as_ptr() as usize, buf.len())
+}
+
+fn fb_class(before: (usize, usize), after: (usize, usize)) -> usize {
+    if before.0 != after.0 { 2 } else if before.1 != after.1 { 1 } else { 0 }
+}
+
+const FB_TITLE_PAD: usize = 8;
+
+/// `Some(tag)` when the bytes are a valid flatbuffer of the expected shape: title `L<l>:` + padding,
+/// k >= 1 entries, entry i = (i, tag)
+fn fb_decode(bytes: &[u8]) -> Option<u64> {
+    let root = flatbuffers::root::<UnboundedData>(bytes).ok()?;
+    let entries = root.entries()?;
+    let k = entries.len();
+    if k == 0 { return None; }
+    let tag = entries.get(0).data_2();
+    for (i, e) in entries.iter().enumerate() {
+        if e.data_2() != tag || e.data_1() != i as i32 { return None; }
+    }
+    let title = root.title()?;
+    let (head, pad) = title.split_once(':')?;
+    if !head.starts_with('L') || head[1..].parse::<usize>().is_err() { return None; }
+    if pad.len() != k * FB_TITLE_PAD || !pad.bytes().all(|b| b == b'x') { return None; }
+    Some(tag)
+}
+
+/// header values first (a reused chunk may carry anything), then the bytes
+fn fb_read<S: Service>(s: &Sample<S, Fb, ()>) -> Option<(u64, u64, &[u8])> {
+    let (po, ne) = (s.header().payload_offset(), s.header().number_of_elements());
+    if ne < po || ne > (1 << 24) { return None; }
+    Some((po, ne, s.payload_bytes()))
 }
 
 fn exec<S: Service>(w: &mut World<S>, t: &[&str]) -> String {
@@ -337,6 +461,152 @@ fn exec_slice<S: Service>(w: &mut SliceWorld<S>, t: &[&str]) -> String {
     r
 }
 
+fn exec_fb<S: Service + 'static>(w: &mut FbWorld<S>, t: &[&str]) -> String {
+    let r = match t[0] {
+        "cpub" => {
+            // cpub <p> <max_loans>
+            if w.pub_labels.contains(&n(t[1])) { "dup".to_string() } else {
+            if w.service.is_none() { return "no-service".to_string(); }
+            match w.service.as_ref().unwrap().publisher_builder().max_loaned_samples(n(t[2])).backpressure_strategy(BackpressureStrategy::DiscardData).initial_reserved_memory(1).allocation_strategy(iceoryx2_bb_elementary::allocation_strategy::AllocationStrategy::PowerOfTwo).create() {
+                Ok(p) => {
+                    w.pub_ids.insert(p.id().value(), n(t[1]));
+                    w.pub_labels.insert(n(t[1]));
+                    w.pubs.insert(n(t[1]), p);
+                    "ok".to_string()
+                }
+                Err(e) => format!("err:{e:?}"),
+            }
+            }
+        }
+        "dpub" => match w.pubs.remove(&n(t[1])) { Some(p) => { drop(p); "ok".into() } None => "none".into() },
+        "csub" => {
+            // csub <s> <buffer size or -> <history request or ->
+            if w.sub_labels.contains(&n(t[1])) { "dup".to_string() } else {
+            if w.service.is_none() { return "no-service".to_string(); }
+            let mut b = w.service.as_ref().unwrap().subscriber_builder();
+            if t[2] != "-" { b = b.buffer_size(n(t[2])); }
+            if t[3] != "-" { b = b.history_request(n(t[3])); }
+            match b.create() {
+                Ok(s) => { w.subs.insert(n(t[1]), s); w.sub_labels.insert(n(t[1])); w.samples.insert(n(t[1]), vec![]); "ok".to_string() }
+                Err(e) => format!("err:{e:?}"),
+            }
+            }
+        }
+        "dsub" => match w.subs.remove(&n(t[1])) { Some(s) => { drop(s); "ok".into() } None => "none".into() },
+        "loanf" | "loan" => match w.pubs.get(&n(t[1])) {
+            // loanf <p> <l> <n>: loan, then write the title (`L<l>:` + 8 bytes per entry to come)
+            Some(_) if w.loans.contains_key(&(n(t[1]), n(t[2]))) => "dup".into(),
+            Some(p) => match p.loan_flatbuffer() {
+                Ok(mut s) => {
+                    let k = if t.len() > 3 { n(t[3]).max(1) } else { 1 };
+                    let before = fb_place(&mut s);
+                    let title = s.flatbuffer_builder().create_string(&format!("L{}:{}", t[2], "x".repeat(k * FB_TITLE_PAD)));
+                    let after = fb_place(&mut s);
+                    w.stat.loanf[fb_class(before, after)] += 1;
+                    w.stat.max_capacity = w.stat.max_capacity.max(after.1);
+                    w.loans.insert((n(t[1]), n(t[2])), FbLoan { s, title, k });
+                    "ok".into()
+                }
+                Err(e) => format!("err:{e:?}"),
+            },
+            None => "none".into(),
+        },
+        "send" => match w.loans.remove(&(n(t[1]), n(t[2]))) {
+            // send <p> <l> <tag>: k entries (i, tag), finish, send
+            Some(FbLoan { mut s, title, k }) => {
+                let tag = t[3].parse::<u64>().unwrap();
+                let before = fb_place(&mut s);
+                let root = {
+                    let b = s.flatbuffer_builder();
+                    let mut entries = Vec::with_capacity(k);
+                    for i in 0..k {
+                        entries.push(Entry::create(b, &EntryArgs { data_1: i as i32, data_2: tag }));
+                    }
+                    let entries = b.create_vector(&entries);
+                    UnboundedData::create(b, &UnboundedDataArgs { title: Some(title), entries: Some(entries) })
+                };
+                let mid = fb_place(&mut s);
+                let s = s.assume_init(root);
+                // `finish` may grow once more: the final place of the payload area is taken from the finished sample
+                let base = s.payload_bytes().as_ptr() as usize - s.header().payload_offset() as usize;
+                w.stat.send[fb_class(before, (base, mid.1))] += 1;
+                w.stat.max_capacity = w.stat.max_capacity.max(mid.1);
+                match s.send() { Ok(k) => format!("ok:{k}"), Err(e) => format!("err:{e:?}") }
+            }
+            None => "none".into(),
+        },
+        "probe" => match w.pubs.get(&n(t[1])) {
+            // loan until refused, report how many loans succeeded and why the next one failed, give all back
+            Some(p) => {
+                let mut v = vec![];
+                let e = loop {
+                    match p.loan_flatbuffer() { Ok(s) => v.push(s), Err(e) => break format!("{e:?}") }
+                    if v.len() > 1000 { break "unbounded".to_string() }
+                };
+                let k = v.len();
+                for s in v.drain(..) { drop(s); }
+                format!("{k}:{e}")
+            }
+            None => "none".into(),
+        },
+        // C17: the node handle / the service handle are dropped while everything else lives on
+        "dnode" => match w.node.take() { Some(n) => { drop(n); "ok".into() } None => "none".into() },
+        "dsvc" => match w.service.take() { Some(n) => { drop(n); "ok".into() } None => "none".into() },
+        "ls" => list_resources(&w.prefix, &w.node_dir),
+        "dloan" => match w.loans.remove(&(n(t[1]), n(t[2]))) { Some(s) => { drop(s); "ok".into() } None => "none".into() },
+        "recv" => match w.subs.get(&n(t[1])) {
+            Some(s) => match s.receive() {
+                Ok(Some(sample)) => {
+                    let origin = w.pub_ids.get(&sample.origin().value()).map(|p| p.to_string()).unwrap_or("?".into());
+                    let (snap, shown) = match fb_read(&sample) {
+                        Some((po, ne, bytes)) => {
+                            let tag = fb_decode(bytes);
+                            (FbSnap { tag: tag.unwrap_or(u64::MAX), payload_offset: po, number_of_elements: ne, bytes: bytes.to_vec() },
+                             tag.map(|x| x.to_string()).unwrap_or("corrupt".into()))
+                        }
+                        None => (FbSnap { tag: u64::MAX, payload_offset: sample.header().payload_offset(), number_of_elements: sample.header().number_of_elements(), bytes: vec![] }, "corrupt".into()),
+                    };
+                    w.samples.get_mut(&n(t[1])).unwrap().push((sample, snap));
+                    format!("some:{origin}:{shown}")
+                }
+                Ok(None) => "none".into(),
+                Err(e) => format!("err:{e:?}"),
+            },
+            None => "none".into(),
+        },
+        "dsample" => match w.samples.get_mut(&n(t[1])) {
+            Some(v) if n(t[2]) < v.len() => { let s = v.remove(n(t[2])); drop(s); "ok".into() }
+            _ => "none".into(),
+        },
+        "upd" => {
+            if t[1] == "p" { match w.pubs.get(&n(t[2])) { Some(p) => format!("{}", match p.update_connections() { Ok(()) => "ok".to_string(), Err(e) => format!("err:{e:?}") }), None => "none".into() } }
+            else { match w.subs.get(&n(t[2])) { Some(s) => format!("{}", match s.update_connections() { Ok(()) => "ok".to_string(), Err(e) => format!("err:{e:?}") }), None => "none".into() } }
+        }
+        "has" => match w.subs.get(&n(t[1])) { Some(s) => match s.has_samples() { Ok(b) => format!("{b}"), Err(e) => format!("err:{e:?}") }, None => "none".into() },
+        _ => panic!("bad op"),
+    };
+    // canary: everything a subscriber still holds must be unchanged
+    // the documented borrow limit is per subscriber
+    for (sl, v) in w.samples.iter() {
+        if w.subs.contains_key(sl) && v.len() > w.max_borrow {
+            oracle_fail("subscriber holds more samples than max borrowed samples".to_string());
+        }
+    }
+    for (sl, v) in w.samples.iter() {
+        for (s, snap) in v {
+            let intact = match fb_read(s) {
+                Some((po, ne, bytes)) => po == snap.payload_offset && ne == snap.number_of_elements && (snap.bytes.is_empty() || bytes == &snap.bytes[..]),
+                None => snap.bytes.is_empty() && s.header().payload_offset() == snap.payload_offset && s.header().number_of_elements() == snap.number_of_elements,
+            };
+            if !intact {
+                let whose = if w.subs.contains_key(sl) { "live" } else { "dropped" };
+                oracle_fail(format!("held sample of {whose} subscriber changed"));
+            }
+        }
+    }
+    r
+}
+
 /// what exists of this case in the file system / shared memory namespace, by kind (ipc variant)
 fn list_resources(prefix: &str, node_dir: &str) -> String {
     let mut counts: std::collections::BTreeMap<String, usize> = Default::default();
@@ -368,6 +638,8 @@ impl Comp for PubSubComp {
         if t[0] == "new" {
             self.w = AnyWorld::None;
             return match t[1] {
+                "local-fb" => match mk_fb::<local::Service>(t) { Ok(w) => { self.w = AnyWorld::LocalFb(Box::new(w)); "ok".into() } Err(e) => e },
+                "ipc-fb" => match mk_fb::<ipc::Service>(t) { Ok(w) => { self.w = AnyWorld::IpcFb(Box::new(w)); "ok".into() } Err(e) => e },
                 "local-slice" => match mk_slice::<local::Service>(t) { Ok(w) => { self.w = AnyWorld::LocalSlice(Box::new(w)); "ok".into() } Err(e) => e },
                 "ipc-slice" => match mk_slice::<ipc::Service>(t) { Ok(w) => { self.w = AnyWorld::IpcSlice(Box::new(w)); "ok".into() } Err(e) => e },
                 "local" => match mk::<local::Service>(t) { Ok(w) => { self.w = AnyWorld::Local(Box::new(w)); "ok".into() } Err(e) => e },
@@ -376,6 +648,8 @@ impl Comp for PubSubComp {
         }
         match &mut self.w {
             AnyWorld::None => "no-world".into(),
+            AnyWorld::LocalFb(w) => exec_fb(w, t),
+            AnyWorld::IpcFb(w) => exec_fb(w, t),
             AnyWorld::LocalSlice(w) => exec_slice(w, t),
             AnyWorld::IpcSlice(w) => exec_slice(w, t),
             AnyWorld::Local(w) => exec(w, t),
@@ -410,6 +684,32 @@ pub fn generate(a: &Args) -> Vec<Vec<String>> {
                     if rng.chance(35) { cur = (cur * 2).min(64); }
                     let len = if rng.chance(70) { cur } else { rng.range(1, cur) };
                     *l = format!("loans {} {len}", &l[5..]);
+                }
+            }
+        }
+        return cases;
+    }
+    if a.rest.iter().any(|x| x == "fb") && a.exhaustive == 0 && !a.rest.iter().any(|x| x == "shutdown") {
+        // flatbuffer payloads (dynamic data segment, PowerOfTwo, initial reserved memory 1): the same histories, every loan
+        // with a number of entries; the builder outgrows its chunk while the sample is loaned (Sender::grow), numbers
+        // mostly grow so that the loan is relocated into a new segment while other samples are loaned / in flight / held
+        let mut a2 = Args { mode: a.mode.clone(), seed: a.seed ^ 0xfb, cases: a.cases, len: a.len, exhaustive: 0, rest: a.rest.iter().filter(|x| *x != "fb").cloned().collect() };
+        a2.rest.retain(|x| x != "keep-dpub");
+        let keep_dpub = a.rest.iter().any(|x| x == "keep-dpub");
+        let mut rng = Rng::new(a.seed ^ 0xf1a7b);
+        let mut cases = generate(&a2);
+        for c in cases.iter_mut() {
+            if !keep_dpub { c.retain(|l| !l.starts_with("dpub ")); }
+            let mut cur = 1u64;
+            for l in c.iter_mut() {
+                if l.starts_with("new ") {
+                    let t: Vec<&str> = l.split(' ').collect();
+                    *l = format!("new {}-fb {}", t[1], t[2..].join(" "));
+                    cur = 1;
+                } else if l.starts_with("loan ") {
+                    if rng.chance(35) { cur = (cur * 2).min(64); }
+                    let k = if rng.chance(70) { cur } else { rng.range(1, cur) };
+                    *l = format!("loanf {} {k}", &l[5..]);
                 }
             }
         }
